@@ -20,7 +20,7 @@ ASSUMPTIONS = ["planar metric, InMemMap; graphs <= 12 nodes, traces <= 12 points
                "same case with avoid_goingback off satisfies the clause)",
                "ties: the upper bound counts values within 1e-9 relative as tied (repair F16); joint expansion is demanded for exactly equal values only"]
 TOLERANCES = {"logprob": 1e-9}
-BUDGET = {"quick": {"shards": 8, "examples": 450}, "thorough": {"shards": 16, "examples": 8000}}
+BUDGET = {"quick": {"shards": 8, "examples": 800}, "thorough": {"shards": 16, "examples": 8000}}
 
 
 class Tap:
